@@ -731,13 +731,23 @@ func runC12(c *CaseCtx) (res CaseResult) {
 		return append(append([]am.Arg{}, opts...), ownArgs(call)...)
 	}
 	full := func(call int) []am.Arg { return fullWith(sharedOpts, call) }
-	// sequential references
-	refCall := DoCall(w, t.Func, fullWith(refOpts, 900001))
+	// Sequential references. In half of the cases they are taken AFTER the
+	// concurrent phase (the outcome classes compared are singletons for these
+	// scenarios, so the moment does not matter): only then do the goroutines
+	// perform the very first use of the shared run-once converters.
+	refsAfter := r.Intn(2) == 0
 	var convT int
 	if len(s.Target.In) > 0 {
 		convT = s.Target.In[0].Type
 	}
-	refConv := DoConvert(w, types[convT], fullWith(refOpts, 900002))
+	var refCall, refConv Outcome
+	takeRefs := func() {
+		refCall = DoCall(w, t.Func, fullWith(refOpts, 900001))
+		refConv = DoConvert(w, types[convT], fullWith(refOpts, 900002))
+	}
+	if !refsAfter {
+		takeRefs()
+	}
 	// Convert's outcome is only compared where it is a singleton: the bare
 	// type is underivable, or derivable with the converter set in C05 scope
 	cs := s
@@ -770,8 +780,13 @@ func runC12(c *CaseCtx) (res CaseResult) {
 		return a
 	}
 	refRF := Outcome{Class: "none"}
-	if sharedRF != nil {
-		refRF = DoCall(w, sharedRF, rfArgs(900004, r))
+	takeRefRF := func() {
+		if sharedRF != nil {
+			refRF = DoCall(w, sharedRF, rfArgs(900004, r))
+		}
+	}
+	if !refsAfter {
+		takeRefRF()
 	}
 	if refCall.Class == ClsPanic || refConv.Class == ClsPanic || refRedef.Class == ClsPanic {
 		res.violate("C06", "panic/sequential-reference", "sequential reference operation panicked", map[string]interface{}{"scenario": s.String()})
@@ -836,7 +851,16 @@ func runC12(c *CaseCtx) (res CaseResult) {
 	wg.Wait()
 	casePointHook = nil
 	det := func(info string) interface{} {
-		return map[string]interface{}{"scenario": s.String(), "goroutines": G, "gomaxprocs": procs, "info": info}
+		return map[string]interface{}{"scenario": s.String(), "goroutines": G, "gomaxprocs": procs, "info": info, "references_taken_after": refsAfter}
+	}
+	if refsAfter {
+		takeRefs()
+		takeRefRF()
+		if refCall.Class == ClsPanic || refConv.Class == ClsPanic {
+			res.violate("C06", "panic/sequential-reference", "sequential reference operation panicked", det(""))
+			return res
+		}
+		res.obs("cases_with_concurrent_first_use", 1)
 	}
 	res.Evals += len(recs)
 	res.obs("concurrent_operations", int64(len(recs)))
